@@ -25,42 +25,48 @@ struct Scn {
     /// listeners: 1, or 2 (two ports); clients connect to port number `target`
     ports: usize,
     target: usize,
+    /// the pre-shutdown hook's future is created before the shutdown but first polled only after the mid observation
+    lazy: bool,
 }
 
 const IDLE: &str = "lLoadF,lSetWaker,lRecheckF";
-const SCNS: [Scn; 14] = [
+const SCNS: [Scn; 15] = [
     Scn { name: "idle-shutdown", point: "", occurrence: 0, conns_before: 0, hook: "", main: "shutdown", panic: false, hooks: 0,
-        pre: "lLoadF,lSetWaker,lRecheckF,callerStore,callerLoad,callerNotify,lLoadT,lClose,lUncount,lUncLoad,compRead,compFinish", rest: "", ports: 1, target: 0 },
+        pre: "lLoadF,lSetWaker,lRecheckF,callerStore,callerLoad,callerNotify,lLoadT,lClose,lUncount,lUncLoad,compRead,compFinish", rest: "", ports: 1, target: 0, lazy: false },
     Scn { name: "lost-wakeup", point: "accept:loaded-false", occurrence: 1, conns_before: 0, hook: "shutdown", main: "none", panic: false, hooks: 0,
-        pre: "lLoadF,callerStore,callerLoad,callerNotify,lSetWaker,lRecheckT,lClose,lUncount,lUncLoad,compRead,compFinish", rest: "", ports: 1, target: 0 },
+        pre: "lLoadF,callerStore,callerLoad,callerNotify,lSetWaker,lRecheckT,lClose,lUncount,lUncLoad,compRead,compFinish", rest: "", ports: 1, target: 0, lazy: false },
     Scn { name: "waker-set-then-shutdown", point: "accept:waker-set", occurrence: 1, conns_before: 0, hook: "shutdown", main: "none", panic: false, hooks: 0,
-        pre: "lLoadF,lSetWaker,callerStore,callerLoad,callerNotify,lRecheckT,lClose,lUncount,lUncLoad,compRead,compFinish", rest: "", ports: 1, target: 0 },
+        pre: "lLoadF,lSetWaker,callerStore,callerLoad,callerNotify,lRecheckT,lClose,lUncount,lUncLoad,compRead,compFinish", rest: "", ports: 1, target: 0, lazy: false },
     Scn { name: "accepted-not-counted", point: "accept:got-stream", occurrence: 1, conns_before: 0, hook: "shutdown", main: "connect", panic: false, hooks: 0,
-        pre: "lLoadF,lSetWaker,lRecheckF,connect,lAcceptReg,callerStore,callerLoad,callerNotify,lCountSpawn,lLoadT,lClose,lUncount", rest: "cFinish,cLoad,compRead,compFinish", ports: 1, target: 0 },
+        pre: "lLoadF,lSetWaker,lRecheckF,connect,lAcceptReg,callerStore,callerLoad,callerNotify,lCountSpawn,lLoadT,lClose,lUncount", rest: "cFinish,cLoad,compRead,compFinish", ports: 1, target: 0, lazy: false },
     Scn { name: "counted-not-spawned", point: "accept:counted", occurrence: 1, conns_before: 0, hook: "shutdown", main: "connect", panic: false, hooks: 0,
-        pre: "lLoadF,lSetWaker,lRecheckF,connect,lAcceptReg,lCountSpawn,callerStore,callerLoad,callerNotify,lLoadT,lClose,lUncount", rest: "cFinish,cLoad,compRead,compFinish", ports: 1, target: 0 },
+        pre: "lLoadF,lSetWaker,lRecheckF,connect,lAcceptReg,lCountSpawn,callerStore,callerLoad,callerNotify,lLoadT,lClose,lUncount", rest: "cFinish,cLoad,compRead,compFinish", ports: 1, target: 0, lazy: false },
     Scn { name: "running-connection", point: "", occurrence: 0, conns_before: 1, hook: "", main: "shutdown", panic: false, hooks: 0,
-        pre: "lLoadF,lSetWaker,lRecheckF,connect,lAcceptReg,lCountSpawn,lLoadF,lSetWaker,lRecheckF,callerStore,callerLoad,callerNotify,lLoadT,lClose,lUncount", rest: "cFinish,cLoad,compRead,compFinish", ports: 1, target: 0 },
+        pre: "lLoadF,lSetWaker,lRecheckF,connect,lAcceptReg,lCountSpawn,lLoadF,lSetWaker,lRecheckF,callerStore,callerLoad,callerNotify,lLoadT,lClose,lUncount", rest: "cFinish,cLoad,compRead,compFinish", ports: 1, target: 0, lazy: false },
     Scn { name: "last-connection-ends-after-store", point: "shutdown:after-store", occurrence: 1, conns_before: 1, hook: "release0", main: "shutdown", panic: false, hooks: 0,
-        pre: "lLoadF,lSetWaker,lRecheckF,connect,lAcceptReg,lCountSpawn,lLoadF,lSetWaker,lRecheckF,callerStore,cFinish,callerLoad,callerNotify,lLoadT,lClose,lUncount,lUncLoad,compRead,compFinish", rest: "", ports: 1, target: 0 },
+        pre: "lLoadF,lSetWaker,lRecheckF,connect,lAcceptReg,lCountSpawn,lLoadF,lSetWaker,lRecheckF,callerStore,cFinish,callerLoad,callerNotify,lLoadT,lClose,lUncount,lUncLoad,compRead,compFinish", rest: "", ports: 1, target: 0, lazy: false },
     Scn { name: "last-connection-ends-before-notify", point: "shutdown:before-notify", occurrence: 1, conns_before: 1, hook: "release0", main: "shutdown", panic: false, hooks: 0,
-        pre: "lLoadF,lSetWaker,lRecheckF,connect,lAcceptReg,lCountSpawn,lLoadF,lSetWaker,lRecheckF,callerStore,callerLoad,cFinish,callerNotify,lLoadT,lClose,lUncount,lUncLoad,compRead,compFinish", rest: "", ports: 1, target: 0 },
+        pre: "lLoadF,lSetWaker,lRecheckF,connect,lAcceptReg,lCountSpawn,lLoadF,lSetWaker,lRecheckF,callerStore,callerLoad,cFinish,callerNotify,lLoadT,lClose,lUncount,lUncLoad,compRead,compFinish", rest: "", ports: 1, target: 0, lazy: false },
     Scn { name: "second-caller-at-uncount", point: "remove:before-flag", occurrence: 1, conns_before: 0, hook: "shutdown", main: "shutdown", panic: false, hooks: 0,
-        pre: "lLoadF,lSetWaker,lRecheckF,callerStore,callerLoad,callerNotify,lLoadT,lClose,lUncount,callerStore,callerLoad,callerNotify,lUncLoad,compRead,compFinish", rest: "", ports: 1, target: 0 },
+        pre: "lLoadF,lSetWaker,lRecheckF,callerStore,callerLoad,callerNotify,lLoadT,lClose,lUncount,callerStore,callerLoad,callerNotify,lUncLoad,compRead,compFinish", rest: "", ports: 1, target: 0, lazy: false },
     Scn { name: "handler-panics", point: "", occurrence: 0, conns_before: 1, hook: "", main: "shutdown", panic: true, hooks: 0,
-        pre: "lLoadF,lSetWaker,lRecheckF,connect,lAcceptReg,lCountSpawn,lLoadF,lSetWaker,lRecheckF,callerStore,callerLoad,callerNotify,lLoadT,lClose,lUncount", rest: "cFinish,cLoad,compRead,compFinish", ports: 1, target: 0 },
+        pre: "lLoadF,lSetWaker,lRecheckF,connect,lAcceptReg,lCountSpawn,lLoadF,lSetWaker,lRecheckF,callerStore,callerLoad,callerNotify,lLoadT,lClose,lUncount", rest: "cFinish,cLoad,compRead,compFinish", ports: 1, target: 0, lazy: false },
     Scn { name: "pre-shutdown-hook", point: "", occurrence: 0, conns_before: 0, hook: "", main: "shutdown", panic: false, hooks: 1,
-        pre: "hookRegister,lLoadF,lSetWaker,lRecheckF,callerStore,callerLoad,callerNotify,lLoadT,lClose,lUncount,lUncLoad,compRead", rest: "hookAck,compFinish", ports: 1, target: 0 },
+        pre: "hookRegister,lLoadF,lSetWaker,lRecheckF,callerStore,callerLoad,callerNotify,lLoadT,lClose,lUncount,lUncLoad,compRead", rest: "hookAck,compFinish", ports: 1, target: 0, lazy: false },
+    // "You can call shutdown before awaiting the returned future": the hook exists from the call of `wait_for_pre_shutdown()`,
+    // not from the first poll of what it returns
+    Scn { name: "pre-shutdown-hook-polled-late", point: "", occurrence: 0, conns_before: 0, hook: "", main: "shutdown", panic: false, hooks: 1,
+        pre: "hookRegister,lLoadF,lSetWaker,lRecheckF,callerStore,callerLoad,callerNotify,lLoadT,lClose,lUncount,lUncLoad,compRead", rest: "hookAck,compFinish", ports: 1, target: 0, lazy: true },
     // a second caller arrives inside `_shutdown()`, after the first passed the once-only test and before it spawned the completion
     // task, with a pre-shutdown hook registered: still one completion task, and it waits for the hook
     Scn { name: "second-caller-at-spawn-with-hook", point: "_shutdown:spawn-completion", occurrence: 1, conns_before: 0, hook: "shutdown", main: "shutdown", panic: false, hooks: 1,
-        pre: "hookRegister,lLoadF,lSetWaker,lRecheckF,callerStore,callerLoad,callerNotify,lLoadT,lClose,lUncount,lUncLoad,callerStore,callerLoad,callerNotify,compRead", rest: "hookAck,compFinish", ports: 1, target: 0 },
+        pre: "hookRegister,lLoadF,lSetWaker,lRecheckF,callerStore,callerLoad,callerNotify,lLoadT,lClose,lUncount,lUncLoad,callerStore,callerLoad,callerNotify,compRead", rest: "hookAck,compFinish", ports: 1, target: 0, lazy: false },
     // two listeners (two ports): one of them has just accepted a connection (its waker slot is empty) when shutdown()
     // notifies — the other one, parked in accept(), must be woken all the same (once for each of the two being the busy one)
     Scn { name: "two-listeners-first-busy", point: "accept:got-stream", occurrence: 1, conns_before: 0, hook: "shutdown", main: "connect", panic: false, hooks: 0,
-        pre: "lLoadF,lSetWaker,lRecheckF,lLoadF,lSetWaker,lRecheckF,connect,lAcceptReg,callerStore,callerLoad,callerNotify,lCountSpawn,lLoadT,lClose,lUncount,lLoadT,lClose,lUncount", rest: "cFinish,cLoad,compRead,compFinish", ports: 2, target: 0 },
+        pre: "lLoadF,lSetWaker,lRecheckF,lLoadF,lSetWaker,lRecheckF,connect,lAcceptReg,callerStore,callerLoad,callerNotify,lCountSpawn,lLoadT,lClose,lUncount,lLoadT,lClose,lUncount", rest: "cFinish,cLoad,compRead,compFinish", ports: 2, target: 0, lazy: false },
     Scn { name: "two-listeners-second-busy", point: "accept:got-stream", occurrence: 1, conns_before: 0, hook: "shutdown", main: "connect", panic: false, hooks: 0,
-        pre: "lLoadF,lSetWaker,lRecheckF,lLoadF,lSetWaker,lRecheckF,connect,lAcceptReg,callerStore,callerLoad,callerNotify,lCountSpawn,lLoadT,lClose,lUncount,lLoadT,lClose,lUncount", rest: "cFinish,cLoad,compRead,compFinish", ports: 2, target: 1 },
+        pre: "lLoadF,lSetWaker,lRecheckF,lLoadF,lSetWaker,lRecheckF,connect,lAcceptReg,callerStore,callerLoad,callerNotify,lCountSpawn,lLoadT,lClose,lUncount,lLoadT,lClose,lUncount", rest: "cFinish,cLoad,compRead,compFinish", ports: 2, target: 1, lazy: false },
 ];
 const _: &str = IDLE;
 
@@ -146,9 +152,14 @@ impl Nested {
         let hook_registered = Arc::new(AtomicUsize::new(0));
         for _ in 0..s.hooks {
             let (m, a, rel, reg) = (mgr.clone(), acked.clone(), hook_release.clone(), hook_registered.clone());
+            let lazy = s.lazy;
             rt.spawn(async move {
                 let fut = m.wait_for_pre_shutdown(); // registers the hook now
                 reg.fetch_add(1, Ordering::SeqCst);
+                if lazy {
+                    // created, not yet polled: the shutdown and the completion task run first
+                    while !rel.load(Ordering::SeqCst) { tokio::time::sleep(Duration::from_millis(5)).await; }
+                }
                 let sender = fut.await;
                 a.store(true, Ordering::SeqCst);
                 while !rel.load(Ordering::SeqCst) { tokio::time::sleep(Duration::from_millis(5)).await; }
@@ -211,7 +222,7 @@ impl Group for Nested {
         "c10.scn"
     }
     fn rule(&self) -> &'static str {
-        "a real server (one listener) built with --features verif-hooks; a callback at a hook point runs a complete `shutdown()` / lets the last handler finish *at that point* (nested pre-emption: deterministic, no thread parking): idle shutdown, flag loaded false then complete shutdown then set_waker (lost wake-up window), waker set then shutdown, shutdown between accept() returning and the counting (accepted-not-counted window) and between counting and spawn, shutdown with a running connection, the last connection ending right after the flag store and right before notify, a second shutdown() caller inside remove_connection, a second caller inside _shutdown() between the once-only test and the spawn (with a pre-shutdown hook), a panicking handler, a pre-shutdown hook; observations: is wait() resolved while a connection is unfinished (must not), after all finished (must), is the port closed, the connection count, hooks acknowledged — compared with the model's run of the corresponding schedule of atomic actions; each scenario is repeated (3x quick); non-trivial = a hook point was used"
+        "a real server (one listener) built with --features verif-hooks; a callback at a hook point runs a complete `shutdown()` / lets the last handler finish *at that point* (nested pre-emption: deterministic, no thread parking): idle shutdown, flag loaded false then complete shutdown then set_waker (lost wake-up window), waker set then shutdown, shutdown between accept() returning and the counting (accepted-not-counted window) and between counting and spawn, shutdown with a running connection, the last connection ending right after the flag store and right before notify, a second shutdown() caller inside remove_connection, a second caller inside _shutdown() between the once-only test and the spawn (with a pre-shutdown hook), a panicking handler, a pre-shutdown hook, a pre-shutdown hook whose future is created before the shutdown and first polled after the completion task has run; observations: is wait() resolved while a connection is unfinished (must not), after all finished (must), is the port closed, the connection count, hooks acknowledged — compared with the model's run of the corresponding schedule of atomic actions; each scenario is repeated (3x quick); non-trivial = a hook point was used"
     }
     fn parallel(&self) -> bool {
         false
